@@ -35,6 +35,8 @@ func scenarios(tier string) []sched.Scenario {
 		{Name: "leader-crash", Fault: "leader-crash", Clients: 2, PerCli: 1, SyncData: true},
 		{Name: "spurious-failover", Fault: "spurious-failover", Clients: 2, PerCli: 1, SyncData: true},
 		{Name: "lost-newterm-response", Fault: "lost-newterm-response", Clients: 2, PerCli: 1, SyncData: true},
+		{Name: "spurious-failover-lossy", Fault: "spurious-failover-lossy", Clients: 2, PerCli: 1, SyncData: true, LossyRPC: 1},
+		{Name: "swap-lossy", Fault: "swap-lossy", Clients: 2, PerCli: 1, SyncData: true, LossyRPC: 1},
 		{Name: "swap", Fault: "swap", Clients: 2, PerCli: 1, SyncData: true},
 		{Name: "leader-swap", Fault: "leader-swap", Clients: 2, PerCli: 1, SyncData: true},
 		{Name: "leader-crash-restart", Fault: "leader-crash-restart", Clients: 2, PerCli: 1, SyncData: true},
